@@ -219,6 +219,9 @@ def gen_stmt(rng, env, use, others, cls, depth):
     if r < 0.72:
         t = use(pick_type(rng, others, allow_prim=False))
         if t:
+            if rng.random() < 0.25:
+                # creation of a nested type through its outer class: `new Dialog.Builder(x)` is ONE creation
+                return ("expr", ("new", t + "." + rng.choice(["Builder", "Entry", "Key"]), [("lit", "1")] if rng.random() < 0.5 else []))
             return ("expr", ("new", t, []))
     if r < 0.8 and depth < 2:
         return ("if", gen_expr_call(rng, env, use, others, cls, 1), 1, [gen_stmt(rng, inner(env), use, others, cls, depth + 1)], None)
@@ -257,9 +260,12 @@ def gen_stmt(rng, env, use, others, cls, depth):
 def render_project(rng, units, layout=None):
     layout = layout or rng.choice(["maven", "flat"])
     files, built = {}, []
+    # multi-module trees: the main sources of a module may sit below any directory name - also one called `test` (only
+    # `src/test/java/` and *Test(s).java files are test code)
+    prefix = rng.choice(["", "", "", "core/", "test/", "modules/test/"]) if layout == "maven" else ""
     for u in units:
         text, facts = javagen.render_unit(u, rng, wild=rng.choice([0.0, 0.0, 0.04, 0.1]), comments=["note", "run();", "new Foo()"])
-        path = ("src/main/java/%s/%s.java" % (u["pkg"].replace(".", "/"), u["name"])) if layout == "maven" else ("%s_%s.java" % (u["pkg"].replace(".", "_"), u["name"]))
+        path = ("%ssrc/main/java/%s/%s.java" % (prefix, u["pkg"].replace(".", "/"), u["name"])) if layout == "maven" else ("%s_%s.java" % (u["pkg"].replace(".", "_"), u["name"]))
         built.append({"path": path, "text": text, "events": facts["events"], "facts": facts, "unit": u})
     built.sort(key=lambda b: b["path"].split("/"))
     for b in built:
@@ -424,7 +430,7 @@ def gen(rng, tier):
 
 
 RULES = {
-    "C01": ("projects of 1-5 rendered conventional Java units in 3 packages (class/interface, simple names reused across packages, Maven or flat layout, "
+    "C01": ("projects of 1-5 rendered conventional Java units in 3 packages (class/interface, simple names reused across packages, Maven (also as a module below core/, test/, modules/test/) or flat layout, "
             "imports, 0-3 class annotations incl. arguments, extends/implements, 0-3 fields (arrays, initialisers), 0-4 methods/constructors with 0-3 parameters "
             "(generic List<String>), annotations on their own or the same line, wild layout/comments), plus a test file and a non-.java file in 30% of the trees; "
             "each shard is one process; non-trivial = at least one function entry"),
@@ -599,7 +605,11 @@ def oracle_c02(case, out, raw):
                         ds.append(("c02-order-or-name", "%s.%s: recorded %r where the method reference ::%s is written" % (t["name"], tf["name"], g["FunctionName"], e["name"])))
                         break
                 else:
-                    if g["FunctionName"] != "" or g["NodeName"] != e["type"].split("<")[0]:
+                    written = e["type"].split("<")[0]
+                    # `new Outer.Inner()`: the statement does not say which part of a qualified created name is "the created type"
+                    # (the code records the outer class, which is what its imports resolve); exactly one record, naming a part of it
+                    ok_names = {written} if "." not in written else {written, written.split(".")[0], written.split(".")[-1]}
+                    if g["FunctionName"] != "" or g["NodeName"] not in ok_names:
                         ds.append(("c02-creation", "%s.%s: creation of %s recorded as %s %s" % (t["name"], tf["name"], e["type"], g["NodeName"], g["FunctionName"])))
                         break
     return dedup(ds)
